@@ -191,7 +191,7 @@ func TestVerifTimeoutRecover(t *testing.T) {
 	for i, s := range mine {
 		s := s
 		name := fmt.Sprintf("guards/timeout+recover/handler=[%s]/clientcancel=%v", s.b, s.cancel)
-		vrt.Explore(vrt.Options{Name: name, Bound: bound, Prune: true, Budget: vrt.FairBudget(len(mine) - i)}, func(r *vrt.Run) {
+		vrt.Explore(vrt.Options{Name: name, Bound: bound, AutoAdvance: true, Prune: true, Budget: vrt.FairBudget(len(mine) - i)}, func(r *vrt.Run) {
 			o := &gObs{}
 			chain := TimeoutHandler(gTimeout)(RecoverHandler(s.b.handler(o)))
 			rec := newRecWriter()
@@ -294,7 +294,7 @@ func TestVerifMaxConns(t *testing.T) {
 					continue
 				}
 				n, reqs, pan := n, reqs, pan
-				vrt.Explore(vrt.Options{Name: fmt.Sprintf("guards/maxconns/n=%d/requests=%d/panic=%v", n, reqs, pan), Bound: bound, Prune: true, Budget: vrt.FairBudget(1)}, func(r *vrt.Run) {
+				vrt.Explore(vrt.Options{Name: fmt.Sprintf("guards/maxconns/n=%d/requests=%d/panic=%v", n, reqs, pan), Bound: bound, AutoAdvance: true, Prune: true, Budget: vrt.FairBudget(1)}, func(r *vrt.Run) {
 					o := &gObs{}
 					b := behaviour{"Y", "Ba"}
 					if pan {
